@@ -1519,6 +1519,7 @@ impl Translator {
                 let SolvedType::Function(args, _) = self.get_ty(mono, func_node).unwrap() else {
                     unreachable!()
                 };
+                let nfields = args.len();
                 for arg_ty in args {
                     match arg_ty {
                         SolvedType::Void => {}
@@ -1529,11 +1530,10 @@ impl Translator {
                         }
                     }
                 }
-                if nargs > 1 {
+                if nfields > 1 {
+                    // several fields are stored as a tuple, which omits the void ones
                     self.emit(st, Instr::ConstructStruct(nargs));
-                }
-
-                if nargs == 0 {
+                } else if nargs == 0 {
                     self.emit(st, Instr::PushNil(1)); // TODO: optimize this away
                 }
 
